@@ -1,4 +1,4 @@
-import StepModel.P21.ReaderLemmas9
+import StepModel.P21.ReaderLemmas12
 import StepModel.Generated.P21RWGen
 /-! # C03 — the reader never reports a violating file as clean: property theorems
 
@@ -16,9 +16,14 @@ read to the outcome it has on its own; a clean record is complete with its file 
 a flawed record the other parameters keep their values) and the per-class `C03_*_detected` theorems (which reader flags
 what, where it leaves the stream).
 
-What is *not* proved (tied by correspondence only, see notes/C03.md): detection for the classes whose readers are not
-covered by a `ParamRd` lemma (wrong literal kind for REAL/STRING/ENUMERATION/BINARY attributes, undeclared enumeration
-item, violations inside aggregates and selects, unknown/abstract keywords, duplicate ids, externally mapped records).
+Externally mapped instances: `C03_attribute_error_reaches_attribute_merge`, `complexLoop_perr_le` and
+`C03_part_attribute_error_reaches_complex_instance` (what an attribute of any part other than the first reports reaches the
+result of `STEPcomplex::STEPread`, in the source as repaired by fixes/C15: switch `complexMergesAttrErrors`).
+
+What is *not* proved (tied by correspondence only, see notes/C03.md): detection for violations inside aggregates and
+selects and for the untyped select forms, wrong kinds whose first character the per-kind theorems exclude (spelled out
+there), duplicate ids, a missing `=`, complaints of a part's parameter list that are tied to no attribute (the source keeps
+them unreported), attributes of a part that a sibling part derives.
 -/
 namespace StepModel.P21.C03
 open StepModel StepModel.P21 StepModel.P21.RLemmas StepModel.P21.Lemmas
@@ -480,7 +485,7 @@ theorem C03_too_many_parameters_confined {F} (env : Env F) (strict : Bool) (hcfg
     (body : List Byte) (hb : ∀ x ∈ body, x ≠ 41) (sp : List Byte) (hsp : sp.all isSpace = true)
     (err : Sev) (c : Byte) (hc : c ≠ 41) (l rest : List Byte) (sk : Bool) :
     readAttrs env strict [] err c (G l (body ++ 41 :: (sp ++ 59 :: rest)) sk) =
-      .ok ⟨err.greater .inputError, [], G (sp.reverse ++ 41 :: (body.reverse ++ l)) (59 :: rest) sk⟩ := by
+      .ok ⟨err.greater .inputError, [], G (sp.reverse ++ 41 :: (body.reverse ++ l)) (59 :: rest) sk, .null⟩ := by
   unfold readAttrs
   have hclear : (G l (body ++ 41 :: (sp ++ 59 :: rest)) sk).clear = G l (body ++ 41 :: (sp ++ 59 :: rest)) sk := rfl
   simp only [bind, Except.bind, pure, Except.pure, hclear]
@@ -517,8 +522,8 @@ theorem C03_error_resync_confines {F} (ops : FloatOps F) (lex : LexCfg) (cfg : R
     (inst : MInst F) (hfind : st.mgr.find? r.id = some inst) (hnew : inst.state = .new) (hcx : inst.complex = false)
     (p : MPart F) (hparts : inst.parts = [p]) (e : EntityD) (hent : d.entity? p.name = some e)
     (sev0 : Sev) (vals : List (MVal F))
-    (hrd : ∀ L, ∃ sR, instSTEPread { ops := ops, lex := lex, cfg := cfg, dict := d, lookup := Mgr.lookup d st.mgr } strict
-        e.attrs (G L (40 :: (renderParams r.ps ++ r.t4 rest)) sk) = .ok ⟨sev0, vals, sR⟩ ∧ (readTokenSeparator sR).skipws = false)
+    (hrd : ∀ L, ∃ sR asev0, instSTEPread { ops := ops, lex := lex, cfg := cfg, dict := d, lookup := Mgr.lookup d st.mgr } strict
+        e.attrs (G L (40 :: (renderParams r.ps ++ r.t4 rest)) sk) = .ok ⟨sev0, vals, sR, asev0⟩ ∧ (readTokenSeparator sR).skipws = false)
     (hsev : sev0.toInt ≤ Sev.warning.toInt) :
     ∃ l', readInstance ops lex cfg d strict st =
       .ok { s := G l' rest false, inst := some { inst with parts := [{ p with vals := vals }], state := .incomplete },
@@ -545,8 +550,8 @@ def Flawed {F} (env : Env F) (strict : Bool) (x : Step F) : Prop :=
   x.r.Lex ∧ Seps x.g ∧ (∀ q ∈ x.r.ps, ParamScan q) ∧ x.sev.toInt ≤ Sev.warning.toInt ∧
   ∃ e vals, env.dict.entity? x.r.name = some e ∧
     x.out = { id := x.r.id, parts := [{ name := x.r.name, vals := vals }], state := .incomplete } ∧
-    ∀ L rest, ∃ sR, instSTEPread env strict e.attrs (G L (40 :: (renderParams x.r.ps ++ x.r.t4 rest)) false) =
-      .ok ⟨x.sev, vals, sR⟩ ∧ (readTokenSeparator sR).skipws = false
+    ∀ L rest, ∃ sR asev, instSTEPread env strict e.attrs (G L (40 :: (renderParams x.r.ps ++ x.r.t4 rest)) false) =
+      .ok ⟨x.sev, vals, sR, asev⟩ ∧ (readTokenSeparator sR).skipws = false
 
 /-- parameters read without a message leave the record without one -/
 theorem accum_null (sevs : List Sev) (h : ∀ s ∈ sevs, s = .null) : accum .null sevs = .null := by
@@ -811,6 +816,190 @@ theorem C03_wrong_kind_for_enum_detected {F} (env : Env F) (strict : Bool) (a : 
   ⟨hred, ⟨j0, js, rfl, hj0s, hj047, hj092⟩, hb, fun l sk d rest hd =>
     ⟨sk, Or.inl rfl, by simpa using attr_enum_junk env strict a ty hty het hder j0 js hj0s hj047 hj036 hj046 hj0a hj l sk d rest hd⟩⟩
 
+/-- **wrong literal kind for an entity-valued attribute**: a text that starts with neither `#` nor `@` (a number, a string,
+    an enumeration item, a keyword) and holds no `,` `)`: `ReadEntityRef` puts the character back, WARNING, unset (whether
+    or not `ReadEntityRef` itself reports) -/
+theorem C03_wrong_kind_for_reference_detected {F} (env : Env F) (strict : Bool) (a : AttrD) (tg : String)
+    (hty : a.ty = .one (.entity tg)) (hder : a.derived = false) (hred : a.redefining = false)
+    (j0 : Byte) (js : List Byte) (hj0s : isSpace j0 = false) (hj047 : j0 ≠ 47) (hj092 : j0 ≠ 92) (hj036 : j0 ≠ 36)
+    (hj035 : j0 ≠ 35) (hj064 : j0 ≠ 64)
+    (hj : ∀ b ∈ j0 :: js, delimAt env.lex attrDelims b = false) (before : List Byte) (hb : Seps before) :
+    ParamRd env strict { a := a, v := .one (.atom .unset), tok := j0 :: js, before := before, after := [] } .warning :=
+  ⟨hred, ⟨j0, js, rfl, hj0s, hj047, hj092⟩, hb, fun l sk d rest hd =>
+    ⟨sk, Or.inl rfl, by simpa using attr_ref_junk env strict a tg hty hder j0 js hj0s hj047 hj036 hj035 hj064 hj l sk d rest hd⟩⟩
+
+/-- **wrong literal kind for a BINARY attribute**: a text of two or more characters that starts with neither `"` nor a
+    hexadecimal digit (a string, an enumeration item, a reference, a keyword not starting with `A`…`F`) and holds no
+    `,` `)`; second character neither blank nor `/`: `ReadBinary` consumes one character and reports, WARNING, unset -/
+theorem C03_wrong_kind_for_binary_detected {F} (env : Env F) (strict : Bool) (a : AttrD) (hty : a.ty = .one .binary)
+    (hder : a.derived = false) (hred : a.redefining = false)
+    (j0 j1 : Byte) (js : List Byte) (hj0s : isSpace j0 = false) (hj047 : j0 ≠ 47) (hj092 : j0 ≠ 92) (hj036 : j0 ≠ 36)
+    (hj034 : j0 ≠ 34) (hj0x : isXDigit j0 = false) (hj1s : isSpace j1 = false) (hj147 : j1 ≠ 47)
+    (hj : ∀ b ∈ j0 :: j1 :: js, delimAt env.lex attrDelims b = false) (before : List Byte) (hb : Seps before) :
+    ParamRd env strict { a := a, v := .one (.atom .unset), tok := j0 :: j1 :: js, before := before, after := [] } .warning :=
+  ⟨hred, ⟨j0, j1 :: js, rfl, hj0s, hj047, hj092⟩, hb, fun l sk d rest hd =>
+    ⟨sk, Or.inl rfl, by simpa using attr_binary_junk env strict a hty hder j0 j1 js hj0s hj036 hj034 hj0x hj1s hj147 hj l sk d rest hd⟩⟩
+
+/-- **wrong literal kind for a NUMBER attribute**: a text that starts like no numeral (a string, an enumeration item, a
+    reference, a keyword not starting with `E`/`e`) and holds no `,` `)`: `in >> d` extracts nothing, WARNING, unset
+    (whether or not `ReadNumber` itself reports) -/
+theorem C03_wrong_kind_for_number_detected {F} (env : Env F) (strict : Bool) (a : AttrD) (hty : a.ty = .one .number)
+    (hder : a.derived = false) (hred : a.redefining = false)
+    (j0 : Byte) (js : List Byte) (hj0s : isSpace j0 = false) (hj047 : j0 ≠ 47) (hj092 : j0 ≠ 92) (hj036 : j0 ≠ 36) (hnn : notNum j0)
+    (hj : ∀ b ∈ j0 :: js, delimAt env.lex attrDelims b = false) (before : List Byte) (hb : Seps before) :
+    ParamRd env strict { a := a, v := .one (.atom .unset), tok := j0 :: js, before := before, after := [] } .warning :=
+  ⟨hred, ⟨j0, js, rfl, hj0s, hj047, hj092⟩, hb, fun l sk d rest hd =>
+    ⟨sk, Or.inl rfl, by simpa using attr_number_junk env strict a hty hder j0 js hj0s hj047 hj036 hnn hj l sk d rest hd⟩⟩
+
+/-- **no select value**: for an attribute of a select type, a text that starts like none of the forms
+    `SDAI_Select::STEPread` tries (no letter, `#`, `.`, apostrophe, `"`, digit, `-`, `(`, NUL — e.g. `*`, `+5`, `%`) and
+    holds no `,` `)`: WARNING, unset.  (The untyped forms — a bare number, string, enumeration item, binary, aggregate —
+    are "read what you can" with WARNING in the model; no theorem: their stream position depends on the member found.) -/
+theorem C03_no_select_value_detected {F} (env : Env F) (strict : Bool) (a : AttrD) (n : String) (sd : SelectD)
+    (hty : a.ty = .one (.select n)) (hsd : env.dict.select? n = some sd) (hder : a.derived = false) (hred : a.redefining = false)
+    (j0 : Byte) (js : List Byte) (hj0s : isSpace j0 = false) (hj047 : j0 ≠ 47) (hj092 : j0 ≠ 92) (hj036 : j0 ≠ 36)
+    (hj0a : isAlpha j0 = false) (hj00 : j0 ≠ 0) (hj035 : j0 ≠ 35) (hj046 : j0 ≠ 46) (hj039 : j0 ≠ 39) (hj034 : j0 ≠ 34)
+    (hj0d : isDigit j0 = false) (hj045 : j0 ≠ 45) (hj040 : j0 ≠ 40)
+    (hj : ∀ b ∈ j0 :: js, delimAt env.lex attrDelims b = false) (before : List Byte) (hb : Seps before) :
+    ParamRd env strict { a := a, v := .one (.atom .unset), tok := j0 :: js, before := before, after := [] } .warning :=
+  ⟨hred, ⟨j0, js, rfl, hj0s, hj047, hj092⟩, hb, fun l sk d rest hd =>
+    ⟨sk, Or.inl rfl, by
+      simpa using (attr_select_junk env strict a n sd hty hsd hder j0 js hj0s hj047 hj036 hj0a hj00 hj035 hj046
+        hj039 hj034 hj0d hj045 hj040 hj l sk d rest hd)⟩⟩
+
+/-- **something that is no aggregate where one is required**: at whatever point of the parameter list the reader stands
+    (`err`, `c`, `l` arbitrary), in any layout in front of it, if the text for an aggregate attribute starts with anything
+    but `(` `$` `,` `)` — *whatever follows, delimiters included* — `STEPaggregate::ReadValue` returns INPUT_ERROR without
+    consuming anything and the instance's result is INPUT_ERROR or worse.  (This is no `ParamRd`: the stream does not
+    rest at a delimiter, the rest of the record is lost to the recovery — `C03_error_resync_confines` bounds the damage.) -/
+theorem C03_wrong_kind_for_aggregate_detected {F} (env : Env F) (strict : Bool) (a : AttrD) (ety : ElemTy) (rest : List AttrD)
+    (hty : a.ty = .aggr ety) (hder : a.derived = false) (hred : a.redefining = false)
+    (j0 : Byte) (t : List Byte) (hj0s : isSpace j0 = false) (hj047 : j0 ≠ 47) (hj092 : j0 ≠ 92) (hj036 : j0 ≠ 36)
+    (hj040 : j0 ≠ 40) (hj044 : j0 ≠ 44) (hj041 : j0 ≠ 41) (before : List Byte) (hb : Seps before)
+    (err : Sev) (c : Byte) (l : List Byte) (sk : Bool) (r : IR F)
+    (h : readAttrs env strict (a :: rest) err c (G l (before ++ j0 :: t) sk) = .ok r) :
+    r.sev.toInt ≤ Sev.inputError.toInt := by
+  have hsep := readTokenSeparator_seps before hb l j0 t sk hj0s hj047 hj092
+  have ha := attr_aggr_junk env strict a ety hty hder j0 t hj0s hj036 hj040 hj044 hj041 (before.reverse ++ l) sk
+  rw [← hsep] at ha
+  exact C03_attribute_error_reaches_instance env strict a rest err c _ r _ _ _ hred ha (by decide) h
+
+/-- tie: the source keeps what `CheckRemainingInput` reports behind a `$` (C09's repair is in) -/
+theorem C03_source_dollar_keeps_error : Generated.rwLexCfg.dollarKeepsError = true := by decide
+
+/-- **something behind `$`** (`$1`, `$abc`: any text without `,` `)`, not starting with a blank or `/`) for an OPTIONAL
+    attribute of any type: the `$` is taken as the unset value and the rest is reported, WARNING (in a source that keeps
+    the report: `C03_source_dollar_keeps_error`) -/
+theorem C03_junk_after_dollar_detected {F} (env : Env F) (strict : Bool) (a : AttrD) (hopt : a.optional = true)
+    (hder : a.derived = false) (hred : a.redefining = false) (hkeep : env.lex.dollarKeepsError = true)
+    (j0 : Byte) (js : List Byte) (hj0s : isSpace j0 = false) (hj047 : j0 ≠ 47)
+    (hj : ∀ b ∈ j0 :: js, delimAt env.lex attrDelims b = false) (before : List Byte) (hb : Seps before) :
+    ParamRd env strict { a := a, v := nullOf a, tok := 36 :: j0 :: js, before := before, after := [] } .warning :=
+  ⟨hred, ⟨36, j0 :: js, rfl, by decide, by decide, by decide⟩, hb, fun l sk d rest hd =>
+    ⟨sk, Or.inl rfl, by simpa using attr_dollar_junk env strict a hopt hder hkeep j0 js hj0s hj047 hj l sk d rest hd⟩⟩
+
+/-! ### externally mapped instances: what the attributes of a part report reaches the instance
+    (`STEPcomplex::STEPread` as repaired by fixes/C15: `complexMergesAttrErrors`) -/
+
+theorem attrSev_le (a : AttrD) (sev rest : Sev) (hder : a.derived = false) (hs : sev.toInt ≤ Sev.usermsg.toInt) :
+    (attrSev a sev rest).toInt ≤ sev.toInt := by
+  unfold attrSev
+  simp only [hder, Bool.false_eq_true, if_false, hs, if_true]
+  exact greater_le_right _ _
+
+/-- **attribute → what the part's attributes report**: at whatever point of the parameter list the reader stands, if
+    `STEPattribute::STEPread` of the next attribute (not flagged derived) reports a severity at or below USERMSG, the
+    merge of the attributes' own error descriptors (`IR.asev`) is at least that severe — whatever follows. -/
+theorem C03_attribute_error_reaches_attribute_merge {F} (env : Env F) (strict : Bool) (a : AttrD) (rest : List AttrD)
+    (err : Sev) (c : Byte) (s : IStream) (r : IR F) (sev : Sev) (v : MVal F) (s2 : IStream)
+    (hred : a.redefining = false) (hder : a.derived = false)
+    (ha : attrSTEPread env strict a (readTokenSeparator s) = .ok (sev, v, s2))
+    (hs : sev.toInt ≤ Sev.usermsg.toInt)
+    (h : readAttrs env strict (a :: rest) err c s = .ok r) : r.asev.toInt ≤ sev.toInt := by
+  unfold readAttrs at h
+  simp only [hred, Bool.false_eq_true, if_false, ha, bind, Except.bind] at h
+  generalize hp : shiftInto c s2 = p at h
+  obtain ⟨c2, s3⟩ := p
+  dsimp only at h
+  split at h
+  · generalize hq : checkRemainingInput env.lex (some attrDelims) s3
+      (if sev.toInt ≤ Sev.usermsg.toInt then err.greater sev else err) = q at h
+    obtain ⟨s4, err2⟩ := q
+    try dsimp only at h
+    split at h
+    · simp only [pure, Except.pure] at h; cases h; exact attrSev_le a sev _ hder hs
+    · split at h
+      · simp only [pure, Except.pure] at h; cases h; exact attrSev_le a sev _ hder hs
+      · split at h
+        · cases h
+        · simp only [pure, Except.pure] at h
+          cases h
+          exact attrSev_le a sev _ hder hs
+  · split at h
+    · simp only [pure, Except.pure] at h
+      cases h
+      exact attrSev_le a sev _ hder hs
+    · split at h
+      · cases h
+      · simp only [pure, Except.pure] at h
+        cases h
+        exact attrSev_le a sev _ hder hs
+
+/-- what the parts other than the first have reported so far (`partErrors`) is never lost by the part loop: every way out
+    of `STEPcomplex::STEPread` merges it (either merge shape of the source) -/
+theorem complexLoop_perr_le {F} (env : Env F) (strict : Bool) (head : String)
+    (hm : (env.cfg.complexMergesParts || env.cfg.complexMergesAttrErrors) = true) :
+    ∀ (fuel : Nat) (err perr : Sev) (ps : List (MPart F)) (s : IStream) (r : CR F),
+      complexLoop env strict head fuel err perr ps s = .ok r → r.sev.toInt ≤ perr.toInt := by
+  intro fuel
+  induction fuel with
+  | zero => intro err perr ps s r h; simp [complexLoop] at h
+  | succ n ih =>
+    intro err perr ps s r h
+    unfold complexLoop at h
+    simp only [hm, if_true, bind, Except.bind, pure, Except.pure] at h
+    split at h
+    · cases h; exact greater_le_right _ _
+    · split at h
+      · cases h; exact greater_le_right _ _
+      · split at h
+        · rename_i ed _ _
+          generalize hq : instSTEPread env strict ed.ownAttrs _ = q at h
+          cases q with
+          | error e => simp at h
+          | ok rp =>
+            dsimp only at h
+            split at h
+            · exact ih _ _ _ _ _ h
+            · exact Int.le_trans (ih _ _ _ _ _ h) (greater_le_left _ _)
+        · cases h; exact greater_le_right _ _
+
+/-- **a part's attributes → the externally mapped instance** (the repaired `STEPcomplex::STEPread`): at whatever point of
+    the part list the reader stands (`err`, `perr`, `ps`, `s` arbitrary), when the next part is one of the instance's
+    parts other than the first and `SDAI_Application_instance::STEPread` reads its parameter list with attribute merge
+    `rp.asev`, the instance's result is at least that severe — whatever parts follow.  With
+    `C03_attribute_error_reaches_attribute_merge` (attribute → `asev`) and `C03_reported_error_fails_file`
+    (`ReadInstance` hands the result to `AppendEntityErrorMsg`: `complexReportsError`) a violation in any attribute of
+    any such part fails the file.  (Attributes a sibling part derives are excepted by the source; the model's dictionary
+    does not mark them — no generated schema has one in an externally mapped combination.) -/
+theorem C03_part_attribute_error_reaches_complex_instance {F} (env : Env F) (strict : Bool) (head : String)
+    (hm : env.cfg.complexMergesAttrErrors = true) (hp : env.cfg.complexMergesParts = false)
+    (fuel : Nat) (err perr : Sev) (ps : List (MPart F)) (s : IStream) (r : CR F)
+    (hopen : (s.peekC).1 ≠ 41)
+    (nm : String) (hnm : nm = bytesToString (upperBytes (readStdKeyword (s.peekC).2.ws).1))
+    (hpar : ((readStdKeyword (s.peekC).2.ws).2.ws.peekC).1 = 40)
+    (p0 : MPart F) (hfind : ps.find? (·.name == nm) = some p0) (ed : EntityD) (hent : env.dict.entity? nm = some ed)
+    (hne : (nm == head) = false)
+    (rp : IR F) (hrd : instSTEPread env strict ed.ownAttrs ((readStdKeyword (s.peekC).2.ws).2.ws.peekC).2 = .ok rp)
+    (h : complexLoop env strict head (fuel + 1) err perr ps s = .ok r) : r.sev.toInt ≤ rp.asev.toInt := by
+  unfold complexLoop at h
+  have e41 : ((s.peekC).1 == 41) = false := by simpa using hopen
+  have e40 : (((readStdKeyword (s.peekC).2.ws).2.ws.peekC).1 != 40) = false := by simp [hpar]
+  subst hnm
+  simp only [e41, Bool.false_eq_true, if_false, bind, Except.bind, pure, Except.pure, e40, hfind, hent, hrd, hne, hp] at h
+  have h2 := complexLoop_perr_le env strict head (by simp [hm]) _ _ _ _ _ _ h
+  exact Int.le_trans h2 (greater_le_right _ _)
+
 /-! ### the hypotheses are satisfiable: a string where an INTEGER is required -/
 def exDict : Dict :=
   { entities := [{ name := "A", attrs := [{ name := "x", ty := .one .integer, optional := false }], ancestors := ["A"] }],
@@ -821,6 +1010,44 @@ def exRun : M (FileResult Nat) :=
 
 example : (match exRun with | .ok r => r.reported | .error _ => []) = [Sev.warning] := by decide
 example : (match exRun with | .ok r => exitStatus r.sev | .error _ => 0) = 1 := by decide
+
+/-- the filler's own severity is USERMSG for the four kinds it knows, whatever the float arithmetic (C15's regenerated table) -/
+theorem C03_source_filler_usermsg {F} (ops : FloatOps F) (k : AttrNull.Kind)
+    (hk : k = .integer ∨ k = .real ∨ k = .number ∨ k = .string) (s : IStream) : (fillerValue ops k s).1 = Sev.usermsg := by
+  rcases hk with rfl | rfl | rfl | rfl <;> rfl
+
+/-- **something behind `$` for a required INTEGER / REAL / NUMBER / STRING attribute, lenient mode** (p21read's default):
+    the filler is substituted and - in a source that merges the filler's USERMSG with what `CheckRemainingInput` found
+    (`fillerKeepsError`, fixes/C03-4) - the report survives: WARNING, the stream at the delimiter.  In the source without
+    that repair the report is overwritten: `C03_filler_drops_error_witness`. -/
+theorem C03_junk_after_dollar_filler_detected {F} (env : Env F) (a : AttrD) (k : AttrNull.Kind) (hk : FillerKind a.ty k)
+    (hopt : a.optional = false) (hder : a.derived = false) (hred : a.redefining = false)
+    (hkeep : env.cfg.fillerKeepsError = true)
+    (j0 : Byte) (js : List Byte) (hj0s : isSpace j0 = false) (hj047 : j0 ≠ 47)
+    (hj : ∀ b ∈ j0 :: js, delimAt env.lex attrDelims b = false) (before : List Byte) (hb : Seps before)
+    (v : MVal F) (hv : ∀ s, (fillerValue env.ops k s).2.1 = v) :
+    ParamRd env false { a := a, v := v, tok := 36 :: j0 :: js, before := before, after := [] } .warning := by
+  have hk' : k = .integer ∨ k = .real ∨ k = .number ∨ k = .string := by
+    rcases hk with ⟨_, h⟩ | ⟨_, h⟩ | ⟨_, h⟩ | ⟨_, h⟩ <;> simp [h]
+  refine ⟨hred, ⟨36, j0 :: js, rfl, by decide, by decide, by decide⟩, hb, fun l sk d rest hd => ⟨sk, Or.inl rfl, ?_⟩⟩
+  have h := attr_dollar_junk_filler env a k hk hopt hder hkeep (C03_source_filler_usermsg env.ops k hk') j0 js hj0s hj047 hj l sk d rest hd
+  rw [hv] at h
+  simpa using h
+
+/-! ### the defect behind fixes/C03-4 and its repair on the minimal input `#1=A($1);` (lenient mode) -/
+def dollarRun (keep : Bool) : M (FileResult Nat) :=
+  readDataSection dblOps Generated.rwLexCfg { Generated.rwCfg with fillerKeepsError := keep } exDict false false
+    (stringToBytes "#1=A($1);ENDSEC;END-ISO-10303-21;")
+def dollarExit (keep : Bool) : Int × List Sev :=
+  match dollarRun keep with
+  | .ok r => (exitStatus r.sev, r.reported)
+  | .error _ => (-1, [])
+
+/-- the filler's USERMSG overwrites the WARNING for the `1` behind the `$`: the file passes (exit 0) -/
+theorem C03_filler_drops_error_witness : dollarExit false = (0, [Sev.usermsg]) := by decide
+
+/-- with the report kept the file fails -/
+theorem C03_filler_keeps_error_repaired : dollarExit true = (1, [Sev.warning]) := by decide
 
 /-! ### the defect behind the resynchronisation, and its repair, on the minimal input (model level; the check replays
     `corpus/C03/string-delimiters-as-scalar.json` on the code) -/
